@@ -4,7 +4,8 @@ import CoapVerif.Model.LinkFormat
    wk <table> <filter> <windows>     M: coap_print_wellknown_lkd per window | S: window of the listing
    match <text> <pattern> <pfx> <sub>  M: match() | S: matchSpec
    body <table> <filter>             M: hnd_get_wellknown_lkd's body | S: listing
-   get <table> <filter> <szx>        M: body for the query coap_get_query() builds, number of Block2 responses | S: listing, number
+   get <table> <queries> <szx>       M: body for the filter the GET handler takes, number of Block2 responses | S: listing, number
+                                     <queries>: `N`/`-` none, else `+`-separated Uri-Query option values (hex, `-` = empty value)
 
    <table>   `-` or `,`-separated entries  `+<path>:<flags>:<attrs>`  (register)  /  `!<path>` (unregister)
              flags: 1 observable, 2 OSCORE only, 4 strings are caller-owned exact-size objects (harness only)
@@ -128,15 +129,18 @@ def bodyStep (args : List String) : String :=
     | _, _ => "bad-op"
   | _ => "bad-op"
 
+/-- `N` / `-`: no Uri-Query option; otherwise `+`-separated option values (hex, `-` = empty option) -/
+def parseOpts (s : String) : Option (List Bytes) :=
+  if s = "N" || s = "-" then some [] else (s.splitOn "+").mapM bytesOfHex
+
 def getStep (args : List String) : String :=
   match args with
   | [t, f, szx] =>
-    match parseTable t, parseFilterArg f, szx.toNat? with
-    | some t, some qf, some szx =>
-      let opt := match qf with | some [] => none | x => x
+    match parseTable t, parseOpts f, szx.toNat? with
+    | some t, some opts, some szx =>
       let sz := 2 ^ (szx + 4)
-      let l := listing t (opt.getD [])
-      (match getBody t opt with
+      let l := getListing t opts
+      (match getBody t opts with
        | .ok b => "M " ++ hexOrDash b ++ ":" ++ toString (nblocks b.length sz)
        | .rej => "M rej"
        | .oob => "M oob") ++ " | S " ++ hexOrDash l ++ ":" ++ toString (nblocks l.length sz)
